@@ -27,11 +27,12 @@ UNITS: dict = {}
 EXTENT_NAMES: set = set()
 
 
-def unit(name, props, configs=({},), replay=True, desc=""):
-    """Register a contract unit.  props: property ids its clauses serve by default."""
+def unit(name, props, configs=({},), replay=True, desc="", **extra):
+    """Register a contract unit.  props: property ids its clauses serve by default.
+    extra: kernels=False (no pystencils calls: skipped by C15), assumes=(...), tier="thorough"."""
     def deco(fn):
         UNITS[name] = dict(name=name, fn=fn, props=tuple(props), configs=list(configs), desc=desc,
-                           module=fn.__module__)
+                           module=fn.__module__, **extra)
         return fn
     return deco
 
@@ -372,6 +373,20 @@ def dependence_obligations(K: SymK, calls, facts):
     return out
 
 
+def definedness_obligations(K: SymK, path_facts):
+    """q != 0 for every non-constant denominator met on this path, under the facts known at the
+    division (IEEE would give inf/nan silently; over the reals the value would be undefined)."""
+    out = []
+    for i, (k, (q, facts_then)) in enumerate(sorted(ctx.ST.denoms.items(), key=lambda kv: str(kv[1][0]))):
+        goal = ~BoolSym.cmp("eq", q)
+        # facts assumed later on the path only narrow the inputs; the division must be defined for
+        # every input that reaches it, i.e. under the facts at that point plus the unit's requires
+        out.append(Obligation(f"{K.unit}/defined/denominator[{str(q)[:60]}]" + (f"[{cfg_str(K.cfg)}]" if K.cfg else "") + K.path,
+                              K.props, goal, list(path_facts), kind="defined",
+                              note=f"denominator {q}"))
+    return out
+
+
 # --------------------------------------------------------------------------------------------
 # running a unit symbolically and discharging its obligations
 # --------------------------------------------------------------------------------------------
@@ -421,6 +436,7 @@ def run_unit_sym(name, cfg, timeout_ms=None, want_props=None):
                 if K.path and not o.name.endswith(K.path):
                     o.name += K.path
             obs += dependence_obligations(K, ctx.ST.kernel_calls, facts)
+            obs += definedness_obligations(K, facts)
             functions |= set(K.functions)
             for o in obs:
                 if want_props and not (set(o.props) & set(want_props)):
